@@ -49,16 +49,18 @@ func init() {
 				}
 				is = append(is, mk("detector", "VerifC16Overlap", cs("h", z[0], "v", z[1], "mix", 0)), mk("detector", "VerifC16Overlap", cs("h", z[0], "v", z[1], "mix", 1)))
 			}
-			in := mk("detector", "VerifC16Tiles", nil)
-			in.Unwind = 100
-			is = append(is, in)
+			for mix := 0; mix <= 1; mix++ {
+				in := mk("detector", "VerifC16Tiles", cs("mix", mix))
+				in.Unwind = 100
+				is = append(is, in)
+			}
 			return is
 		},
 		tv: func(tier string, seed int64) []*TV {
 			return []*TV{
 				{Harness: "VerifC16Op", PkgDir: "detector", Unwind: 100, Case: cs("op", 0, "h", 3, "v", 3, "mix", 0, "orders", 1), Inputs: map[string]string{"x0": "5", "y0": "2", "f0": "-3", "x1": "4", "y1": "3", "f1": "-4"}},
 				{Harness: "VerifC16Op", PkgDir: "detector", Unwind: 100, Case: cs("op", 2, "h", 3, "v", 3, "mix", 0, "orders", 1), Inputs: map[string]string{"x0": "5", "y0": "2", "f0": "-3", "x1": "5", "y1": "2", "f1": "-3"}},
-				{Harness: "VerifC16Tiles", PkgDir: "detector", Unwind: 100, Inputs: map[string]string{"x0": "5", "y0": "2", "z0": "3", "x1": "5", "y1": "2", "z1": "3"}},
+				{Harness: "VerifC16Tiles", PkgDir: "detector", Unwind: 100, Case: cs("mix", 0), Inputs: map[string]string{"x0": "5", "y0": "2", "z0": "3", "x1": "5", "y1": "2", "z1": "3"}},
 			}
 		},
 	}
